@@ -2,6 +2,7 @@ import PikaVerif.Lemmas.AffBalanced
 import PikaVerif.Lemmas.AffPool
 import PikaVerif.Lemmas.AffTerm
 import PikaVerif.Lemmas.AffNuma
+import PikaVerif.Lemmas.AffCmd
 /-!
 # C15 — workers are pinned to distinct PUs inside the process mask
 
@@ -594,5 +595,116 @@ example : NumaOk { cfgS0 1 with pm := fun _ => true } := by decide
 /-- two threads on the full machine go to two sockets: not `NumaOk` (reported PU of worker 1 is wrong) -/
 example : ¬ NumaOk { cfgS0 2 with pm := fun _ => true } ∧
     NumaBindOk { cfgS0 2 with pm := fun _ => true } := by decide
+
+/-! ## Follow-up C15t (3): the rejection clause through the command line
+
+`Model/AffCmd.lean`: `--pika:threads=<n|cores|all>`, `--pika:cores=<k|all>`,
+`--pika:ignore-process-mask`, `--pika:bind` → the request (`cmdCfg`) `affinity_data::init` is
+called with by `run_or_start` (`startup`).  Tied to the code by `harness/e0/affinity_cmd.cpp`
+(real `command_line_handling::call` + `affinity_data::init` under synthetic machines). -/
+
+/-- the request built from the command line has `used_cores = 0` and the machine / mask given -/
+theorem cmdCfg_fields (cmd : Cmd) (t : Topo) (pm : Nat → Bool) (cfg : Cfg)
+    (h : cmdCfg cmd t pm = some cfg) :
+    cfg.t = t ∧ cfg.pm = pm ∧ cfg.usePm = !cmd.ignoreMask ∧ cfg.used = 0 ∧ 0 < cfg.n ∧
+    (cmd.cores = .dflt → cfg.maxCores = cfg.n) := by
+  unfold cmdCfg at h
+  simp only at h
+  split at h
+  · simp at h
+  · rename_i hn
+    simp only [Option.some.injEq] at h
+    subst h
+    refine ⟨rfl, rfl, rfl, rfl, by simp only; omega, ?_⟩
+    intro hc; simp [cmdCores, hc]
+
+/-- **Oversubscription is rejected at start-up, whatever the combination of `--pika:threads`,
+    `--pika:cores` and `--pika:ignore-process-mask`** (every binding mode other than `none`): more
+    threads than PUs in the process mask — or in the machine when the mask is ignored — makes
+    `affinity_data::init` throw `bad_parameter`; no masks are stored. -/
+theorem C15_start_rejects_oversubscription (cmd : Cmd) (m : Mode) (hb : cmd.bind = some m)
+    (t : Topo) (pm : Nat → Bool) (cfg : Cfg) (hc : cmdCfg cmd t pm = some cfg)
+    (h : avail cfg < cfg.n) : startup cmd t pm = .init (.error .tooMany) := by
+  simp only [startup, hc, hb, affInitMasks, affInit, C15_reject_oversubscription m cfg h]
+
+/-- **The thread-count keywords never oversubscribe**: `--pika:threads=all`, `=cores` and the
+    default ask for at most the PUs available (in the mask, or in the machine when it is
+    ignored), so they are never rejected by `check_num_threads`. -/
+theorem C15_keywords_fit (cmd : Cmd) (hk : ∀ k, cmd.threads ≠ .num k) (t : Topo) (hwf : WF t)
+    (pm : Nat → Bool) (cfg : Cfg) (hc : cmdCfg cmd t pm = some cfg) : cfg.n ≤ avail cfg := by
+  unfold cmdCfg at hc
+  simp only at hc
+  split at hc
+  · simp at hc
+  · simp only [Option.some.injEq] at hc
+    subst hc
+    have h1 := defaultCores_le
+      { t := t, pm := pm, usePm := !cmd.ignoreMask, used := 0, maxCores := 0, n := 0 } hwf
+    show cmdThreads cmd.threads _ ≤ avail
+      { t := t, pm := pm, usePm := !cmd.ignoreMask, used := 0, maxCores := 0, n := 0 }
+    cases ht : cmd.threads with
+    | num k => exact absurd ht (hk k)
+    | dflt => exact h1
+    | cores => exact h1
+    | all => exact Nat.le_refl _
+
+/-- **A satisfiable command line is accepted and bound correctly** (compact / scatter /
+    balanced): if `--pika:cores` is left at its default or the process mask is in use, every
+    request that fits starts with masks satisfying all clauses. -/
+theorem C15_start_accepts (cmd : Cmd) (m : Mode) (hm : m ≠ .numaBalanced) (hb : cmd.bind = some m)
+    (hcores : cmd.cores = .dflt ∨ cmd.ignoreMask = false) (t : Topo) (hwf : WF t)
+    (pm : Nat → Bool) (cfg : Cfg) (hc : cmdCfg cmd t pm = some cfg) (hn : cfg.n ≤ avail cfg) :
+    ∃ aff pn, startup cmd t pm = .init (.bound aff pn) ∧ Good cfg aff pn := by
+  obtain ⟨f1, _, f3, f4, _, f6⟩ := cmdCfg_fields cmd t pm cfg hc
+  have hwf' : WF cfg.t := by rw [f1]; exact hwf
+  have hu : UsedZero cfg := Or.inr f4
+  have hco : CoresOK cfg := by
+    rcases hcores with h | h
+    · exact Or.inr (by rw [f6 h]; exact Nat.le_refl _)
+    · exact Or.inl (by rw [f3, h]; rfl)
+  have hex : ∃ aff pn, decode m cfg = .ok aff pn := by
+    cases m with
+    | numaBalanced => exact absurd rfl hm
+    | compact => exact C15_compact_accepts_satisfiable cfg hwf' hu hco hn
+    | scatter => exact C15_scatter_accepts_satisfiable cfg hwf' hco hn
+    | balanced => exact C15_balanced_accepts_satisfiable cfg hwf' hco hn
+  obtain ⟨aff, pn, hd⟩ := hex
+  have hg := decode_good m hm cfg hwf' hu (fun _ => hco) aff pn hd
+  have hci : countInit cfg.n aff = cfg.n := by
+    apply countInit_all
+    intro i hi
+    obtain ⟨q, h1, _⟩ := hg.bound i hi
+    simp [h1]
+  refine ⟨aff, pn, ?_, hg⟩
+  simp [startup, hc, hb, affInitMasks, affInit, hd, hci]
+
+/-- **`--pika:bind=none` inside the machine**: with at most as many workers as PUs no worker
+    gets a mask. -/
+theorem C15_none_unbound_start (cfg : Cfg) (h : cfg.n ≤ numPus cfg.t) (i : Nat) (hi : i < cfg.n) :
+    noneMask cfg i = [] := by
+  simp [noneMask]; omega
+
+/-- FULL STATEMENT THAT FAILS: "a request for more threads than PUs is rejected / `none` leaves
+    every worker unbound" for `--pika:bind=none`.  `affinity_data::init` raises no error for
+    `--pika:bind=none` whatever the thread count (there is no `check_num_threads` on this path),
+    and `get_pu_mask` tests `no_affinity_` — filled by PU number — with the worker number: worker
+    `#PUs` (the first one beyond the machine) is **bound to PU 0**. -/
+theorem C15_none_oversubscribed_binds_partial (cmd : Cmd) (hb : cmd.bind = none) (t : Topo)
+    (pm : Nat → Bool) (cfg : Cfg) (hc : cmdCfg cmd t pm = some cfg)
+    (_h : numPus cfg.t < cfg.n) :
+    ∃ aff pn, startup cmd t pm = .init (.bound aff pn) ∧ aff (numPus cfg.t) = [0] := by
+  refine ⟨noneMask cfg, fun i => i % numPus cfg.t, by simp only [startup, hc, hb, affInitMasks], ?_⟩
+  simp [noneMask, Nat.mod_self]
+
+/-- the command lines of the E0 smoke test: 2×2×2, mask {1,2,3,6} -/
+def pmA : Nat → Bool := fun q => q == 1 || q == 2 || q == 3 || q == 6
+example : (cmdCfg ⟨.cores, .dflt, false, some .scatter⟩ t222 pmA).map (fun c => (c.n, c.maxCores)) =
+    some (3, 3) := by decide
+example : (cmdCfg ⟨.all, .dflt, false, some .scatter⟩ t222 pmA).map (fun c => (c.n, c.maxCores)) =
+    some (4, 4) := by decide
+example : (cmdCfg ⟨.all, .num 2, true, some .scatter⟩ t222 pmA).map (fun c => (c.n, c.maxCores)) =
+    some (8, 2) := by decide
+example : (match startup ⟨.num 5, .dflt, false, some .scatter⟩ t222 pmA with
+    | .init (.error .tooMany) => true | _ => false) = true := by decide
 
 end PikaVerif.C15
